@@ -10,3 +10,5 @@ for P in "$@"; do
   echo "$OUT" | grep '^VIOLATION' | head -4
 done
 git reset -q --hard HEAD
+# the runs above rewrote evidence/<id>.json under a PATCHED repo: evidence must come from the unchanged tree only
+git -C /verif checkout -- evidence/
